@@ -55,6 +55,49 @@ def lmnnObjective {k d n} (L : Mat K k d) (X : Mat K n d) (y : Fin n → Int) (t
   let push := vsum fun i => (targets i).foldl (fun acc j =>
       acc + vsum fun l => if y l = y i then 0 else smax 0 (1 + embSqDist L X i j - embSqDist L X i l)) 0
   reg * pull + (1 - reg) * push
+
+/-! ## LMNN: the value `_loss_grad` computes (lmnn.py:246-281) -/
+
+/-- plain list sum -/
+def lsum : List K → K
+  | [] => 0
+  | x :: xs => x + lsum xs
+
+/-- `_sum_outer_products(X, a, b)` (weights folded into repetitions): `Σ_p (x_a − x_b)(x_a − x_b)ᵀ` -/
+def sumOuterPairs {d n} (X : Mat K n d) (ps : List (Fin n × Fin n)) : Mat K d d :=
+  fun a b => lsum (ps.map fun p => (X p.1 a - X p.2 a) * (X p.1 b - X p.2 b))
+
+/-- the active push constraints among candidate triples `(i, j, l)` (`j` a target neighbour of `i`, `l` a
+differently labelled point): `g0 < g1`, i.e. `d_il < 1 + d_ij` -/
+def lmnnActive {k d n} (L : Mat K k d) (X : Mat K n d) (triples : List (Fin n × Fin n × Fin n)) :
+    List (Fin n × Fin n × Fin n) :=
+  triples.filter fun t => decide (embSqDist L X t.1 t.2.2 < 1 + embSqDist L X t.1 t.2.1)
+
+/-- the objective value returned by `_loss_grad`:
+`total_active·(1 − reg) + ⟨L·(dfG·reg + df·(1 − reg)), L⟩` with `dfG = Σ_{targets} C_ij` and
+`df = Σ_{active} (C_ij − C_il)` -/
+def lmnnCodeObjective {k d n} (L : Mat K k d) (X : Mat K n d) (targetPairs : List (Fin n × Fin n))
+    (triples : List (Fin n × Fin n × Fin n)) (reg : K) : K × Nat :=
+  let act := lmnnActive L X triples
+  let dfG := sumOuterPairs X targetPairs
+  let dfPlus := sumOuterPairs X (act.map fun t => (t.1, t.2.1))
+  let dfMinus := sumOuterPairs X (act.map fun t => (t.1, t.2.2))
+  let G : Mat K d d := fun a b => dfG a b * reg + (dfPlus a b - dfMinus a b) * (1 - reg)
+  (Scalar.ofNat act.length * (1 - reg) + frob (matMul L G) L, act.length)
+
+/-- the documented objective over the same candidate lists -/
+def lmnnDocObjectiveL {k d n} (L : Mat K k d) (X : Mat K n d) (targetPairs : List (Fin n × Fin n))
+    (triples : List (Fin n × Fin n × Fin n)) (reg : K) : K :=
+  reg * lsum (targetPairs.map fun p => embSqDist L X p.1 p.2) +
+  (1 - reg) * lsum (triples.map fun t => smax 0 (1 + embSqDist L X t.1 t.2.1 - embSqDist L X t.1 t.2.2))
+
+/-- all (sample, target neighbour) pairs / all candidate triples (sample, target neighbour, differently
+labelled point) of a target assignment -/
+def allTargetPairs {n} (targets : Fin n → List (Fin n)) : List (Fin n × Fin n) :=
+  (List.finRange n).flatMap fun i => (targets i).map fun j => (i, j)
+def allTriples {n} (y : Fin n → Int) (targets : Fin n → List (Fin n)) : List (Fin n × Fin n × Fin n) :=
+  (List.finRange n).flatMap fun i => (targets i).flatMap fun j =>
+    ((List.finRange n).filter fun l => y l ≠ y i).map fun l => (i, j, l)
 end
 
 /-! ## LMNN acceptance loop (lmnn.py:201-243), loss/gradient abstract -/
